@@ -215,10 +215,28 @@ Fixpoint payload_match (fuel : nat) (exps : list texp) (payload : list Z) : bool
       end
   end.
 
+(* tickit_pen_get_bool_attr(pen, TICKIT_PEN_REVERSE) *)
+Definition pen_reverse (p : pen) : bool :=
+  match preads p PenDefs.REVERSE with PenSpec.VBool b => b | _ => false end.
+
+(* the printable text the xterm driver (src/termdriver-xterm.c) sends for a list of operations:
+   prints as they are; an erase as ECH -- no text -- unless the pen in force has reverse video,
+   where the driver avoids ECH and writes blanks *)
+Fixpoint xterm_payload (pn : pen) (ops : list termop) : list Z :=
+  match ops with
+  | [] => []
+  | TGoto _ _ :: r => xterm_payload pn r
+  | TSetPen p :: r => xterm_payload p r
+  | TPrint u :: r => u ++ xterm_payload pn r
+  | TErase n _ :: r => (if pen_reverse pn then repeat 32 (Z.to_nat n) else []) ++ xterm_payload pn r
+  end.
+
 Definition row_exps (wrow : list acell) : list texp :=
-  (* erase is sent as ECH by the xterm driver, not as text *)
+  (* erase is sent as ECH by the xterm driver, not as text -- except in reverse video *)
   map (fun x => match expect_cell wrow x with XIs (32 :: nil) p =>
-                   (match ac (nthz wrow x (mkA ASkip (-1))) with AErase _ => XKeep | _ => XIs [32] p end)
+                   (match ac (nthz wrow x (mkA ASkip (-1))) with
+                    | AErase q => if pen_reverse q then XIs [32] p else XKeep
+                    | _ => XIs [32] p end)
                 | e => e end)
       (zseq 0 (length wrow)).
 
